@@ -17,7 +17,7 @@ func zzC15Fixed() {
 	kind := vChoose("kind", 4)
 	size := []int{1, 2, 4, 8}[kind]
 	dl := vRange("dl", 0, size+1)
-	buf := vBytes("dst", dl)
+	buf := zzWindow("dst", dl)
 	v := vUint64("v")
 	var n int
 	var err error
@@ -77,7 +77,7 @@ func zzC15Fixed() {
 func zzC15Varint() {
 	v := vUint64("v")
 	dl := vRange("dl", 0, 11)
-	buf := vBytes("dst", dl)
+	buf := zzWindow("dst", dl)
 	size := WritableUintSize(v)
 	vAssert(size >= 1 && size <= 10, "predicted varint size out of range")
 	n, err := MarshalUint(uint(v), buf)
@@ -101,7 +101,7 @@ func zzC15Varint() {
 	}
 }
 
-var zzC15Lens = []int{0, 1, 2, 3, 4, 126, 127, 128, 129, 16382, 16383, 16384, 16385}
+var zzC15Lens = []int{0, 1, 2, 3, 4, 5, 6, 7, 8, 9, 10, 11, 12, 13, 14, 15, 16, 17, 18, 19, 20, 126, 127, 128, 129, 16382, 16383, 16384, 16385}
 
 // byte strings and strings around the 1-2-3 byte length-prefix boundaries
 func zzC15Bytes() {
@@ -123,7 +123,7 @@ func zzC15Bytes() {
 	} else {
 		dl = []int{0, 1, size - 1, size, size + 1}[vChoose("dlk", 5)]
 	}
-	buf := vBytes("dst", dl)
+	buf := zzWindow("dst", dl)
 	var n int
 	var err error
 	if asString {
